@@ -1,0 +1,10 @@
+//go:build verif
+
+package sqlparser
+
+// Verification hooks (build tag `verif` only): access to unexported parts of the redaction path so
+// that an external harness can run the real code on a parsed statement and look at the resulting
+// tree. Nothing here changes behaviour; the file is not compiled without the tag.
+
+// VerifMaskLiterals runs maskLiterals (the second pass of RedactSQLQuery / HandleRawSQLQuery).
+func VerifMaskLiterals(stmt Statement, prefix string) { maskLiterals(stmt, prefix) }
